@@ -44,3 +44,4 @@ open AGV AGV.C03
 #print axioms endAgg_stepOK
 #print axioms Tree.wf_bounds
 #print axioms Tree.wf_no_split
+#print axioms ellipsis_consecutive_direct
